@@ -92,6 +92,16 @@ def run(ctx: Ctx):
                     ctx.fail("no-module-level-state", f"{rel}:module-level-call",
                              "module-level object created in converters.py", rel, st.lineno)
 
+    # ---- the helper functions of types.py that every converter calls (is_special_property, is_keyword_class, ...) must not
+    # keep state either: a lazily filled module-level index is shared by all converters and visible half-built to a
+    # second thread
+    from ..genlint import Index as _Index, cross_run_state as _crs
+    pidx = _Index(ctx.src, dirs=("packages/python/lsprotocol",))
+    nstate_t, hits_t = _crs(pidx, "packages/python/lsprotocol/")
+    for rel_, construct, msg, ln in hits_t:
+        ctx.fail("no-module-level-state", construct, msg, rel_, ln)
+    ctx.ok("no-module-level-state", {"package_containers_examined": nstate_t})
+
     # ---- functions reachable from register_hooks
     reach, todo = set(), ["register_hooks"]
     while todo:
